@@ -12,6 +12,8 @@ package snapshot
 //                          timeout of 10 units; timeout disabled)
 //   VerifC11StreamerAlone  the same with no other reader (thorough tier)
 //   VerifC11CloseVsTimer   Close before / after an idle-timer callback that is already under way
+//   VerifC11Preempt        Close (one or two callers) overlapping the callback with preemption
+//                          at synchronisation operations (max_preempt 1 / 2), forced-schedule replay
 //   VerifC11Twin           vacuity twin
 // Part (a)  lock balance of the exported Store methods, every internal step able to fail
 //   VerifC11Open           real Store.Open (+ refused Reap while the stream is open, release by
@@ -542,6 +544,77 @@ func VerifC11CloseVsTimer() {
 	verifAssert("C11-underlying-closed-exactly-once-on-release", rc.closes == 1)
 	verifAssert("C11-close-after-release-ok", l.Close() == nil)
 	verifAssertLock("C11-hold-released-exactly-once", s, others, false)
+}
+
+// VerifC11Preempt: Close overlapping the idle-timer callback *inside* the two functions.
+//
+// The entries above switch goroutines only where one blocks, so Close and the callback run one
+// after the other. Here the executor may also take the processor away from a running goroutine
+// at its synchronisation operations (spec: max_preempt 1 quick / 2 thorough), e.g. from Close
+// between its first look at the stream's state and taking the streamer's mutex, while the
+// callback runs inside the critical section. As in VerifC11CloseVsTimer the harness plays the
+// runtime (the pending firing is taken from the real timer, the callback runs on a harness
+// goroutine), so the recorded interleaving can be forced in the native replay.
+// One other stream holds a read hold throughout: it must keep it, and a reap must be refused
+// for as long as it is open.
+func VerifC11Preempt() {
+	verifPanicsAreViolations()
+	s := verifBareStore()
+	verifAssume(s.mrsw.BeginRead() == nil) // the other open stream
+	verifAssume(s.mrsw.BeginRead() == nil) // the hold Open passes to the streamer under test
+	timeout := time.Duration(10 * verifUnit)
+	rc := &verifRC{noStall: true}
+	l := NewLockingStreamer(rc, s, timeout)
+	verifAssert("C11-timer-armed", l.timer != nil && l.timer.Stop()) // the harness fires it
+
+	recent := verifChoice("recentActivity", 2) == 1
+	if recent {
+		time.Sleep(time.Duration(6 * verifUnit))
+		rc.nextN = 3
+		n, err := l.Read(make([]byte, 4))
+		verifAssert("C11-read-passes-through", n == 3 && err == nil && rc.reads == 1)
+		time.Sleep(time.Duration(4 * verifUnit))
+	} else {
+		time.Sleep(timeout)
+	}
+	twoClosers := verifChoice("secondClose", 2) == 1
+
+	// the timer is due: its callback and the consumer's Close (raft closes every snapshot it
+	// opened, sometimes from two places) run concurrently
+	var errA, errB error
+	doneA, doneB, doneT := false, !twoClosers, false
+	go func() {
+		errA = l.Close()
+		doneA = true
+	}()
+	go func() {
+		l.checkIdle()
+		doneT = true
+	}()
+	if twoClosers {
+		go func() {
+			errB = l.Close()
+			doneB = true
+		}()
+	}
+	verifSettle()
+	verifReach("close-overlaps-callback")
+	verifAssert("C11-close-and-callback-finish", doneA && doneB && doneT)
+	verifAssertLock("C11-hold-released-exactly-once", s, 1, false)
+	verifAssert("C11-underlying-closed-exactly-once-on-release", rc.closes == 1)
+	verifAssert("C11-close-results", (errA == nil || errA == rc.closeErr) && (errB == nil || errB == rc.closeErr))
+	verifAssert("C11-reap-refused-while-other-stream-open", s.mrsw.BeginWrite("reap") != nil)
+
+	// nothing is left armed that could release again
+	time.Sleep(2 * timeout)
+	verifSettle()
+	verifAssertLock("C11-hold-released-exactly-once", s, 1, false)
+	verifAssert("C11-underlying-closed-exactly-once-on-release", rc.closes == 1)
+	verifAssert("C11-close-after-release-ok", l.Close() == nil)
+	verifAssertLock("C11-other-stream-keeps-its-hold", s, 1, false)
+	// the other stream closes: now, and only now, a reap can start
+	s.mrsw.EndRead()
+	verifAssert("C11-reap-possible-after-last-stream-closed", s.mrsw.BeginWrite("reap") == nil)
 }
 
 // VerifC11Twin: same scenario, but claims the hold is never released - must be violated.
